@@ -353,18 +353,24 @@ package pppoe
 // Abstract view: sess = sessions (PPPoE session id -> *Session), idx =
 // macToSession (client MAC string -> session id). C20 for this structure:
 // a session id in use identifies exactly one session (ids: the session stored
-// under id carries that id; id 0 is reserved by RFC 2516 and never in use),
-// and the MAC index is the inverse of "client MAC of session" (fwd + rev:
-// GetSessionByMAC(mac of s) returns s, and every index entry leads to a live
-// session with that MAC). macstr(h) is net.HardwareAddr(h).String().
-// The per-session mutex protects only the mutable protocol state; ID and
-// ClientMAC are immutable after NewSession.
+// under id carries that id; id 0 is reserved by RFC 2516 and never in use).
+// A client may hold several sessions (RFC 2516), so the client MAC is not a key
+// of the session table and idx cannot be a bijection; idx is the secondary
+// lookup "most recently created session of this MAC". What C20 demands of it:
+//   rev  every index entry leads to a LIVE session whose client MAC is the key
+//        (GetSessionByMAC never returns a removed session or another client's),
+//   and, as whole-view postconditions, removing a session deletes at most the
+//   index entry that refers to THAT session: entries of other sessions (in
+//   particular of a newer session of the same MAC) are untouched.
+// (Before the fix `fwd` - every session is the one indexed under its MAC - was
+// the stated invariant; it is unsatisfiable as soon as a MAC has two sessions.)
+// macstr(h) is net.HardwareAddr(h).String(). The per-session mutex protects only
+// the mutable protocol state; ID and ClientMAC are immutable after NewSession.
 
 //@ type SessionManager
 //@   owns mu: sessions macToSession nextID
 //@   inv nonnil: self.sessions != nil && self.macToSession != nil
 //@   inv ids: forall i uint16 :: i in self.sessions ==> self.sessions[i] != nil && self.sessions[i].ID == i && i != 0
-//@   inv fwd: forall i uint16 :: i in self.sessions ==> macstr(self.sessions[i].ClientMAC) in self.macToSession && self.macToSession[macstr(self.sessions[i].ClientMAC)] == i
 //@   inv rev: forall k string :: k in self.macToSession ==> self.macToSession[k] in self.sessions && macstr(self.sessions[self.macToSession[k]].ClientMAC) == k
 
 //@ func NewSessionManager
@@ -372,7 +378,9 @@ package pppoe
 //@   ensures result != nil && fresh(result) && result.inv && card(result.sessions) == 0 && card(result.macToSession) == 0
 
 // CreateSession: on success exactly one new (id -> session) entry with a
-// previously unused, non-zero id and one index entry for the client MAC.
+// previously unused, non-zero id; the index entry of the client MAC now refers
+// to the new session, no other index entry changes. A failing call changes nothing
+// in either map. Terminates: at most 65535 probes.
 //@ func (m *SessionManager) CreateSession
 //@   ensures err == nil ==> result != nil && fresh(result) && result.ID != 0 && sameBytes(result.ClientMAC, clientMAC)
 //@   ensures err == nil ==> forall i uint16 :: i == result.ID ==> !locked(i in m.sessions) && i in m.sessions && m.sessions[i] == result
@@ -381,11 +389,21 @@ package pppoe
 //@   ensures err != nil ==> result == nil && dom(m.sessions) == locked(dom(m.sessions)) && vals(m.sessions) == locked(vals(m.sessions)) && dom(m.macToSession) == locked(dom(m.macToSession)) && vals(m.macToSession) == locked(vals(m.macToSession))
 
 //@ loop SessionManager.CreateSession#1
+//@   invariant 0 <= probes && probes <= 65535 && !found
 //@   invariant m.ids
-//@   invariant m.fwd
 //@   invariant m.rev
 //@   invariant m.sessions == locked(m.sessions) && m.macToSession == locked(m.macToSession)
 //@   invariant dom(m.sessions) == locked(dom(m.sessions)) && vals(m.sessions) == locked(vals(m.sessions)) && dom(m.macToSession) == locked(dom(m.macToSession)) && vals(m.macToSession) == locked(vals(m.macToSession))
+//@   decreases 65535 - probes
+
+// unindexLocked (caller holds mu): drops idx[mac] iff it refers to id; nothing else changes.
+//@ func (m *SessionManager) unindexLocked
+//@   requires m.nonnil
+//@   modifies m.macToSession
+//@   ensures m.macToSession == old(m.macToSession)
+//@   ensures old(mac in m.macToSession) && old(m.macToSession[mac]) == id ==> dom(m.macToSession) == old(dom(m.macToSession))[mac := false]
+//@   ensures !(old(mac in m.macToSession) && old(m.macToSession[mac]) == id) ==> dom(m.macToSession) == old(dom(m.macToSession))
+//@   ensures vals(m.macToSession) == old(vals(m.macToSession))
 
 //@ func (m *SessionManager) GetSession
 //@   modifies m.sessions, m.macToSession, m.nextID
@@ -401,28 +419,31 @@ package pppoe
 //@   ensures !locked(macstr(mac) in m.macToSession) ==> result == nil
 //@   ensures dom(m.sessions) == locked(dom(m.sessions)) && vals(m.sessions) == locked(vals(m.sessions)) && dom(m.macToSession) == locked(dom(m.macToSession)) && vals(m.macToSession) == locked(vals(m.macToSession))
 
-// RemoveSession: the id and the index entry of its MAC disappear together; every other mapping is untouched.
+// RemoveSession: the id disappears together with the index entry that refers to it (if any);
+// index entries of other sessions - e.g. a newer session of the same MAC - are untouched.
 //@ func (m *SessionManager) RemoveSession
 //@   modifies m.sessions, m.macToSession, m.nextID
 //@   sets removedID = id
 //@   ensures dom(m.sessions) == locked(dom(m.sessions))[id := false]
 //@   ensures forall i uint16 :: i in m.sessions ==> m.sessions[i] == locked(m.sessions[i])
-//@   ensures !locked(id in m.sessions) ==> dom(m.macToSession) == locked(dom(m.macToSession))
-//@   ensures locked(id in m.sessions) ==> dom(m.macToSession) == locked(dom(m.macToSession))[locked(macstr(m.sessions[id].ClientMAC)) := false]
-//@   ensures forall k string :: k in m.macToSession ==> m.macToSession[k] == locked(m.macToSession[k])
+//@   ensures forall k string :: k in m.macToSession ==> locked(k in m.macToSession) && m.macToSession[k] == locked(m.macToSession[k])
+//@   ensures forall k string :: locked(k in m.macToSession) && locked(m.macToSession[k]) != id ==> k in m.macToSession
+//@   ensures forall k string :: locked(k in m.macToSession) && locked(m.macToSession[k]) == id ==> !(k in m.macToSession)
 
-// CleanupExpired: only removes; what remains is unchanged (and the lock invariants hold again).
+// CleanupExpired: only removes; what remains is unchanged, and an index entry disappears only
+// together with the session it refers to.
 //@ func (m *SessionManager) CleanupExpired
 //@   ensures forall i uint16 :: i in m.sessions ==> locked(i in m.sessions) && m.sessions[i] == locked(m.sessions[i])
 //@   ensures forall k string :: k in m.macToSession ==> locked(k in m.macToSession) && m.macToSession[k] == locked(m.macToSession[k])
+//@   ensures forall k string :: locked(k in m.macToSession) && locked(m.macToSession[k]) in m.sessions ==> k in m.macToSession
 
 //@ loop SessionManager.CleanupExpired#1
 //@   invariant m.sessions == locked(m.sessions) && m.macToSession == locked(m.macToSession) && m.nonnil
 //@   invariant m.ids
-//@   invariant m.fwd
 //@   invariant m.rev
 //@   invariant forall i uint16 :: i in m.sessions ==> locked(i in m.sessions) && m.sessions[i] == locked(m.sessions[i])
 //@   invariant forall k string :: k in m.macToSession ==> locked(k in m.macToSession) && m.macToSession[k] == locked(m.macToSession[k])
+//@   invariant forall k string :: locked(k in m.macToSession) && locked(m.macToSession[k]) in m.sessions ==> k in m.macToSession
 
 //@ func generateMagicNumber
 //@   trusted reads crypto/rand; writes nothing the caller can see
